@@ -2,7 +2,7 @@
 import ast
 import re
 
-from .common import Ctx, Finding, Result, need, TRUSTED_LOGGING, P
+from .common import is_attach_call, Ctx, Finding, Result, need, TRUSTED_LOGGING, P
 from ..index import norm
 from .. import paths
 
@@ -63,7 +63,7 @@ def isolation(ctx: Ctx, fi, node, depth=0, seen=None):
             continue
         if any(isinstance(a_, ast.ExceptHandler) for a_ in ctx.prog.ancestors(c2, stop=fi.node)):
             continue
-        if any(f_.name in ("attach_result", "push_snapshot") for f_ in ctx.types.resolve_call(c2, fi).repo):
+        if any(f_.name in ("attach_result", "push_snapshot") for f_ in ctx.types.resolve_call(c2, fi).repo) or is_attach_call(ctx, c2, fi):
             # exclusive branches (if / else) are not 'after'
             cs1 = {(norm(c_), pol) for c_, pol in paths.conditions(ctx.prog, node, fi)}
             cs2 = {(norm(c_), pol) for c_, pol in paths.conditions(ctx.prog, c2, fi)}
@@ -183,6 +183,12 @@ def run(ctx: Ctx, tier: str) -> Result:
                 if not uses:
                     res.fail(Finding("C20.ISO", fi.qname, st, fi.loc(st), "what the plugin contributed (`%s`) is never used: healthy plugins lose their contribution" % got))
                 for u in uses:
+                    # what the plugin handed back is the plugin's too: taking it in (merging it) happens under a guard inside the loop
+                    ct_u = ctx.guards.catching_try(u, fi, "Exception")
+                    if ct_u is None or not paths.within(ctx.prog, ct_u[0], lp_):
+                        res.fail(Finding("C20.ISO", fi.qname, u, fi.loc(u), "`%s` takes in what the plugin returned outside the per-plugin guard: a plugin answering with something that "
+                                         "cannot be merged costs the whole snapshot / resource and the plugins after it" % norm(u)[:60]))
+                        continue
                     cs_ = [(norm(c_), pol) for c_, pol in paths.conditions(ctx.prog, u, fi) if paths.within(ctx.prog, c_, lp_)]
                     okc = cs_ in ([(got, True)], [("%s is not None" % got, True)], [("%s is None" % got, False)], [("not %s" % got, False)])
                     if okc:
@@ -215,6 +221,17 @@ def run(ctx: Ctx, tier: str) -> Result:
     need(appends, "load_plugins: no append of loaded plugin found")
     def _active_holds(node, f_):
         for test, pol in paths.conditions(ctx.prog, node, f_):
+            inner = test.operand if isinstance(test, ast.UnaryOp) and isinstance(test.op, ast.Not) else test
+            if isinstance(inner, ast.Name):
+                # the answer held in a local first: `active = bool(plugin.is_active())` ... `if active:`
+                lb_ = ctx.types.local_bindings(f_, inner.id)
+                if len(lb_) == 1 and lb_[0][0] == "assign" and lb_[0][1][2] is None and lb_[0][1][1] is not None:
+                    v_ = lb_[0][1][1]
+                    if isinstance(v_, ast.Call) and isinstance(v_.func, ast.Name) and v_.func.id == "bool" and len(v_.args) == 1:
+                        v_ = v_.args[0]
+                    if isinstance(v_, ast.Call) and any(t.name == "is_active" for t in ctx.types.resolve_call(v_, f_).repo):
+                        if (inner is not test) != pol:
+                            return True
             for c in ast.walk(test):
                 if isinstance(c, ast.Call) and any(t.name == "is_active" for t in ctx.types.resolve_call(c, f_).repo):
                     # active => kept : either `if x.is_active(): append` or `if not x.is_active(): continue`
@@ -339,6 +356,35 @@ def run(ctx: Ctx, tier: str) -> Result:
                             used = isinstance(c.func, ast.Attribute) and isinstance(c.func.value, ast.Name) and \
                                 bool(rets_l) and all(isinstance(r.value, ast.Name) and r.value.id == c.func.value.id for r in rets_l)
                         sorted_by_order = sorted_by_order and used
+    # a plugin whose order() answers nothing (None) sorts as 0: the comparison of None with a number raises outside every guard
+    # and takes the start of the agent with it
+    for c in ctx.types.calls_in(lp):
+        tg = ctx.types.resolve_call(c, lp)
+        if not any(e.endswith(".sort") or e == "builtins.sorted" for e in tg.ext):
+            continue
+        for kw in c.keywords:
+            if kw.arg != "key":
+                continue
+            bodies = []
+            if isinstance(kw.value, ast.Lambda):
+                bodies = [(lp, kw.value.body)]
+            else:
+                for ty in ctx.types.type_of(kw.value, lp):
+                    if ty[0] in ("func", "bound") and ty[1] in ctx.prog.functions:
+                        kf = ctx.prog.functions[ty[1]]
+                        bodies += [(kf, r.value) for r in ctx.types.nodes_in(kf, ast.Return) if r.value is not None]
+            for kf, e in bodies:
+                calls_ = [n for n in ast.walk(e) if isinstance(n, ast.Call) and any(t_.name == "order" for t_ in ctx.types.resolve_call(n, kf).repo)]
+                if not calls_:
+                    continue
+                dflt = isinstance(e, ast.BoolOp) and isinstance(e.op, ast.Or) and e.values[0] is calls_[0] and isinstance(e.values[-1], ast.Constant) and isinstance(e.values[-1].value, int)
+                dflt = dflt or (isinstance(e, ast.IfExp)) or (isinstance(e, ast.Call) and isinstance(e.func, ast.Name) and e.func.id == "int" and not (e.args and e.args[0] is calls_[0]))
+                guarded = ctx.guards.catching_try(c, lp, "TypeError") is not None
+                if dflt or guarded:
+                    res.ok("C20.LOAD", {"an order() of None sorts as a number": norm(e)[:50]})
+                else:
+                    res.fail(Finding("C20.LOAD", kf.qname, e, kf.loc(e), "the sort key is `%s` as it comes: a plugin whose order() returns None makes the sort raise TypeError outside "
+                                     "every guard - no plugin is loaded and the agent does not start" % norm(e)[:50]))
     if sorted_by_order:
         res.ok("C20.LOAD", {"sorted by order()": True})
     else:
@@ -355,6 +401,16 @@ def run(ctx: Ctx, tier: str) -> Result:
             res.fail(Finding("C20.LOAD", m2.qname, n_, m2.loc(n_), "`%s` gets a new value here but `self.%s`, which %s fills from it and consults first, is left as it is: after a "
                              "second start the plugins of the first one (switched off or shut down since) are still the ones that are called" % (norm(n_), k_, m_.name)))
     res.ok("C20.LOAD", {"no memo of an instance field survives its reassignment (configuration classes)": nmemo})
+    from .common import unsound_memos
+    for c_ in ctx.prog.classes.values():
+        if not c_.module.name.startswith("deep.config"):
+            continue
+        um_ = unsound_memos(ctx, c_)
+        for m_, n_, what_ in um_:
+            res.fail(Finding("C20.LOAD", m_.qname, n_, m_.loc(n_), "%s - the plugins asked are those of an earlier plugin set (a switched-off plugin keeps being called, a newly "
+                             "enabled one never is)" % what_))
+        if not um_:
+            res.ok("C20.LOAD", {"%s: no cached answer outlives the plugin list it was worked out from" % c_.name: True})
     from .common import borrow
     borrow(ctx, res, tier, "c19", ("C19.CHAIN",), "C20.SWITCH", "a plugin switch given in configuration resolves as documented (a falsy value is a value)")
     # every plugin hands its name and the configuration to the base constructor in their own places (the switch
